@@ -298,7 +298,7 @@ Definition weight (W : wiki) (c : call) : nat :=
   | CHandle => 1
   | CDesc _ => 1
   end.
-Definition sumw (W : wiki) (cs : list call) : nat := fold_right (fun c a => weight W c + a) 0 cs.
+Fixpoint sumw (W : wiki) (cs : list call) : nat := match cs with [] => 0 | c :: r => weight W c + sumw W r end.
 Definition measure (W : wiki) (s : state) : nat :=
   sumw W (pending s) + 8 * length (todo s) + 3 * match desc_todo s with Some l => length l | None => 0 end.
 
